@@ -5,6 +5,11 @@ V = os.path.dirname(os.path.dirname(os.path.abspath(__file__)))
 props = [json.loads(l) for l in open(os.path.join(V, 'properties.jsonl'))]
 MC = 'model_checking'
 CLAIMS = {
+ 'C15': dict(
+    technique='TLA+ canonical encoder Enc (Bencode.tla) and value generator (BValueGen.tla) enumerated by TLC; cases replayed into BEncoder/BDecoder; recorded encoder runs validated by TLC (EncTrace.tla)',
+    text='TLC enumerates all value trees up to a token bound over boundary leaves (i64 min/max, binary and delimiter-like strings, prefix keys) together with the canonical encoding computed by the TLA+ encoder; BEncoder must produce exactly these bytes and BDecoder must return the value; every canonical accepted document of the recogniser must re-encode to itself; random deep trees encoded by rdest are validated by TLC. Bounded-exhaustive model-based testing against the TLA+ reference.',
+    note='Trusted: TLC, the TLA+ encoder (cross-checked against the recogniser by invariant ReEncodeInv), harness value encoding. Values between boundary leaves are sampled.',
+    ref='DESIGN.md 6/C15, 5.4'),
  'C16': dict(
     technique='TLA+ reference automaton (Bencode.tla) enumerated by TLC; every reachable state replayed into BDecoder; recorded decoder verdicts validated by TLC (BencodeTrace.tla)',
     text='TLC enumerates every input over a delimiter-rich 10-symbol alphabet up to a length bound as the reachable states of an explicit pushdown recogniser; each state carries the verdict the property demands and is replayed through the real BDecoder (bounded-exhaustive model-based testing against the TLA+ reference). In the other direction decoder runs on mutated real-shaped documents are recorded and validated by TLC over the full byte alphabet.',
